@@ -73,7 +73,21 @@ func (e *Engine) VerifyFunc(b Bound) (u *Unit) {
 		free = append(free, v)
 	}
 	// preconditions
-	penv := &specEnv{u: u, st: entry, old: entry, vars: map[string]Val{}, pkgPath: c.PkgPath, callee: fn}
+	penv := &specEnv{u: u, st: entry, old: entry, vars: map[string]Val{}, pkgPath: c.PkgPath, callee: fn, entryHeld: u.entryHeld}
+	// requires clauses are translated twice: the first pass only collects the locks named by held(...)
+	{
+		scan := *penv
+		scan.st = &state{over: map[string]string{}, base: &recProv{keys: map[string]bool{}}}
+		scan.old = scan.st
+		scan.vars = map[string]Val{}
+		for _, p := range fn.Params {
+			scan.vars[p.Name()] = Val{t: q("in!" + p.Name()), typ: p.Type()}
+		}
+		for _, rq := range c.Requires {
+			scan.boolExpr(rq.E)
+		}
+		penv.entryHeld = nil
+	}
 	for i, p := range fn.Params {
 		penv.vars[p.Name()] = params[i]
 	}
